@@ -76,8 +76,8 @@ theorem split_first (lats lons alts times sv iv : List ℝ) (idx : Nat) (neg : B
   cases neg <;>
     (refine ⟨?_, ?_, ?_, ?_, ?_, ?_⟩ <;>
       simp only [splitFirst, trajOf, Kern.grid_split_first_lats, Kern.grid_split_first_lons, Kern.grid_split_first_alts,
-        Kern.grid_split_first_times, Kern.grid_split_first_state, Kern.grid_split_first_integ, Kern.grid_cross_lat, edgeLon, sgn,
-        getAt_eq, PI, lit_real, Option.map, List.map, Bool.false_eq_true, if_false, if_true] <;> norm_num)
+        Kern.grid_split_first_times, Kern.grid_split_first_state, Kern.grid_split_first_integ, Kern.grid_cross_lat, edgeLon, sgn, splitShare, nonzero,
+        Bool.or_eq_true, decide_eq_true_eq, zero_real, getAt_eq, PI, lit_real, Option.map, List.map, Bool.false_eq_true, if_false, if_true] <;> norm_num)
 
 /-- `_dateline_split_second_segment` likewise -/
 theorem split_second (lats lons alts times sv iv : List ℝ) (idx : Nat) (neg : Bool) (l2 ltot : ℝ) :
@@ -92,8 +92,8 @@ theorem split_second (lats lons alts times sv iv : List ℝ) (idx : Nat) (neg : 
   cases neg <;>
     (refine ⟨?_, ?_, ?_, ?_, ?_, ?_⟩ <;>
       simp only [splitSecond, trajOf, Kern.grid_split_second_lats, Kern.grid_split_second_lons, Kern.grid_split_second_alts,
-        Kern.grid_split_second_times, Kern.grid_split_second_state, Kern.grid_split_second_integ, Kern.grid_cross_lat, edgeLon, sgn,
-        getAt_eq, PI, lit_real, Option.map, List.map, List.singleton_append, Bool.false_eq_true, if_false, if_true] <;> norm_num)
+        Kern.grid_split_second_times, Kern.grid_split_second_state, Kern.grid_split_second_integ, Kern.grid_cross_lat, edgeLon, sgn, splitShare, nonzero,
+        Bool.or_eq_true, decide_eq_true_eq, zero_real, getAt_eq, PI, lit_real, Option.map, List.map, List.singleton_append, Bool.false_eq_true, if_false, if_true] <;> norm_num)
 
 /-- `crosses_dateline` for one pair of longitudes: the float the source computes is the model's integer sign -/
 theorem cross_sign (A : String → ℝ) (lon1 lon2 : ℝ) : Kern.grid_cross_sign A lon1 lon2 = ((crossSign PI lon1 lon2 : Int) : ℝ) := by
